@@ -192,7 +192,8 @@ CHECKS = {
         {"polls_checked": 2500, "expired_deadline_polls": 300, "deadline_events": 120, "timeouts": 200,
          "wait_timeouts": 100, "expected_hangs": 10}, assumptions=KERNEL_TRUST),
     "C09": scen_check(
-        "eng_poll", "exploration",
+        [("eng_poll", "asan"), ("eng_poll", "plain", {"tiers": ["thorough"], "limit": 300,
+                              "prefix": ["valgrind", "-q", "--error-exitcode=99", "--num-callers=12"]})], "exploration",
         "random multi-source polls (1-4 sources incl. process-less ones, all 16 interest masks) over 1-3 children whose "
         "streams are put in every state (idle, data pending, closed by child, closed by parent, not a pipe, stdin full; "
         "child running/exited/reaped, fork mode, never started); reported bits compared with ground truth rebuilt from "
@@ -201,7 +202,8 @@ CHECKS = {
         {"polls_checked": 2500, "event_polls": 1000, "probes": 1000, "epipe_expected": 50, "bits_checked": 1500},
         assumptions=KERNEL_TRUST),
     "C02": scen_check(
-        "eng_io", "exploration",
+        [("eng_io", "asan"), ("eng_io", "plain", {"tiers": ["thorough"], "limit": 300,
+                              "prefix": ["valgrind", "-q", "--error-exitcode=99", "--num-callers=12"]})], "exploration",
         "six workload templates (bulk output over both streams with sizes 0..5 MB straddling 64 KiB; fine-grained "
         "interleavings of child writes/closes/exit with parent reads of sizes 0,1,7,4096,65536; stdin transfers in every "
         "chunk size followed by close; start-up input; mixed; nonblocking empty/data/EOF) in blocking and nonblocking mode "
@@ -213,7 +215,8 @@ CHECKS = {
          "stdin_bytes_verified": 10000000, "eof_checks": 500, "stress_children": 30, "stress_bytes_verified": 5000000},
         assumptions=KERNEL_TRUST, extra=stress_pass),
     "C16": scen_check(
-        "eng_io", "exploration",
+        [("eng_io", "asan"), ("eng_io", "plain", {"tiers": ["thorough"], "limit": 300,
+                              "prefix": ["valgrind", "-q", "--error-exitcode=99", "--num-callers=12"]})], "exploration",
         "reproc_drain / reproc_run_ex over children writing 0..1 MB in 1-5 chunks to both streams, closing streams before "
         "exiting, with err in {pipe, stdout, parent, discard}; recording sinks (every call logged and content-verified), "
         "sinks failing at call k with positive/negative results, string sinks with/without prefix, realloc failing at "
